@@ -1,6 +1,7 @@
 """C18 implementation side: real layers (Serial of a real connection and a scripted neuron), the real delay-adjusted /
 kernel STDP trainers, real monitors and Updater.  Per step it reports the two event monitors' tensors, the delay the
 trainer saw, the accumulated (pos, neg) parts and - on request - the parameter change made by connection.update()."""
+import numpy as np
 import torch
 from common import main, fhex, exc_code
 import factory
@@ -69,37 +70,65 @@ def zero_kernel(diff, **kwargs):
     return torch.zeros_like(diff)
 
 
-def mk_trainer(t):
+def wrap(v, tag, shape=None):
+    """a hyperparameter value in one of the TYPES the trainers accept (they cast with float(), or hand kernel keyword
+    arguments through unchanged, tensors as buffers)"""
+    if isinstance(v, list):                       # one value per parameter element: tensor shaped like the parameter
+        return torch.tensor(v, dtype=torch.float64).reshape(*shape, 1)   # plus the receptive axis
+    if tag in (None, "float"):
+        return float(v)
+    if tag == "int":
+        return int(v)
+    if tag == "np64":
+        return np.float64(v)
+    if tag == "np32":
+        return np.float32(v)
+    if tag == "npi":
+        return np.int64(int(v))
+    if tag == "t0":
+        return torch.tensor(float(v), dtype=torch.float64)
+    if tag == "t0i":
+        return torch.tensor(int(v))
+    if tag == "t1":
+        return torch.tensor([float(v)], dtype=torch.float64)
+    raise ValueError(tag)
+
+
+def hp(t, k, shape=None):
+    return wrap(t[k], (t.get("types") or {}).get(k), shape)
+
+
+def mk_trainer(t, shape=None):
     """the trainer object, built from its constructor-level (default) hyperparameters"""
     red = RED[t["red"]]
     cls = t["cls"]
     if cls in ("DelayAdjustedSTDP", "DelayAdjustedMSTDP"):
-        return getattr(learn, cls)(t["lr_pos"], t["lr_neg"], t["tc_pos"], t["tc_neg"], batch_reduction=red)
+        return getattr(learn, cls)(hp(t, "lr_pos"), hp(t, "lr_neg"), hp(t, "tc_pos"), hp(t, "tc_neg"), batch_reduction=red)
     if cls in ("DelayAdjustedSTDPD", "DelayAdjustedMSTDPD"):
-        return getattr(learn, cls)(t["lr_neg"], t["lr_pos"], t["tc_neg"], t["tc_pos"], batch_reduction=red)
+        return getattr(learn, cls)(hp(t, "lr_neg"), hp(t, "lr_pos"), hp(t, "tc_neg"), hp(t, "tc_pos"), batch_reduction=red)
     if cls in KERNEL:
         kw = {"delayed": bool(t.get("delayed", False))} if cls == "KernelSTDP" else {}
         kpost = zero_kernel if t.get("zero_kernels") else functional.exp_stdp_post_kernel
         kpre = zero_kernel if t.get("zero_kernels") else functional.exp_stdp_pre_kernel
         return getattr(learn, cls)(kpost, kpre,
-                                   {"learning_rate": t["lr_post"], "time_constant": t["tc_post"]},
-                                   {"learning_rate": t["lr_pre"], "time_constant": t["tc_pre"]},
+                                   {"learning_rate": hp(t, "lr_post", shape), "time_constant": hp(t, "tc_post", shape)},
+                                   {"learning_rate": hp(t, "lr_pre", shape), "time_constant": hp(t, "tc_pre", shape)},
                                    batch_reduction=red, **kw)
     raise ValueError(cls)
 
 
-def override_kwargs(t, keys, extra):
+def override_kwargs(t, keys, extra, shape):
     """register_cell(name, cell, **kwargs): the cell's own (effective) hyperparameters t, restricted to the overridden keys"""
     kw = {}
     for k in keys:
         if k in ("lr_pos", "lr_neg", "tc_pos", "tc_neg"):
-            kw[k] = t[k]
+            kw[k] = hp(t, k)
         elif k == "red":
             kw["batch_reduction"] = RED[t["red"]]
         elif k == "post":
-            kw["kernel_post_kwargs"] = {"learning_rate": t["lr_post"], "time_constant": t["tc_post"]}
+            kw["kernel_post_kwargs"] = {"learning_rate": hp(t, "lr_post", shape), "time_constant": hp(t, "tc_post", shape)}
         elif k == "pre":
-            kw["kernel_pre_kwargs"] = {"learning_rate": t["lr_pre"], "time_constant": t["tc_pre"]}
+            kw["kernel_pre_kwargs"] = {"learning_rate": hp(t, "lr_pre", shape), "time_constant": hp(t, "tc_pre", shape)}
         elif k == "kernels":
             kw["kernel_post"] = functional.exp_stdp_post_kernel
             kw["kernel_pre"] = functional.exp_stdp_pre_kernel
@@ -132,14 +161,14 @@ def run_cells(defaults, cells):
     registered with its own keyword overrides (cell["override_keys"] of its effective hyperparameters cell["trainer"]).
     All cells are stepped, then trainer(...) is called once, as a user would.  -> per cell, the list of step records"""
     cls = defaults["cls"]
-    tr = mk_trainer(defaults)
+    built = [build_cell(case) for case in cells]
+    # per-element (tensor) constructor-level hyperparameters only make sense for the shape of a single cell
+    tr = mk_trainer(defaults, tuple(built[0][1].weight.shape))
     KEEP.append(tr)
-    built = []
-    for j, case in enumerate(cells):
-        cs, conn, neu, layer = build_cell(case)
-        kw = override_kwargs(case["trainer"], case.get("override_keys", []), case.get("override_extra"))
+    for j, (case, (cs, conn, neu, layer)) in enumerate(zip(cells, built)):
+        kw = override_kwargs(case["trainer"], case.get("override_keys", []), case.get("override_extra"),
+                             tuple(conn.weight.shape))
         tr.register_cell(f"c{j}", layer.cell, **kw)
-        built.append((cs, conn, neu, layer))
     param = "delay" if cls in DELAYPARAM else "weight"
     threefactor = cls in ("DelayAdjustedMSTDP", "DelayAdjustedMSTDPD")
     out = [[] for _ in cells]
@@ -166,7 +195,9 @@ def run_cells(defaults, cells):
                 sg = st0["signal"]
                 if isinstance(sg, list):
                     sg = torch.tensor(sg, dtype=torch.float64)
-                tr(sg, st0.get("scale", 1.0))
+                else:
+                    sg = wrap(sg, st0.get("signal_type"))
+                tr(sg, wrap(st0.get("scale", 1.0), st0.get("scale_type")))
             else:
                 tr()
             for j, (case, (cs, conn, neu, layer)) in enumerate(zip(cells, built)):
